@@ -38,6 +38,19 @@ func FromYAMLInput(data []byte) (*Node, error) {
 	if err != nil {
 		return nil, err
 	}
+	return canonKeys(n)
+}
+
+// FromYAMLInputNode is FromYAMLInput for an already parsed yaml.Node.
+func FromYAMLInputNode(yn *yaml.Node) (*Node, error) {
+	n, err := FromYAMLNode(yn)
+	if err != nil {
+		return nil, err
+	}
+	return canonKeys(n)
+}
+
+func canonKeys(n *Node) (*Node, error) {
 	var bad error
 	seen := map[*Node]bool{}
 	var rec func(x *Node)
